@@ -244,6 +244,7 @@ func Generate(t *tape.Tape, o Opts) *Plan {
 				a.A = int32(lo + t.Choose(TableSize-lo))
 			case AHost:
 				a.A = int32(t.Choose(tags))
+				a.B = int32(t.Choose(2)) // 1: through a function table (call_indirect on table 1) instead of a direct call
 			case ATrap:
 				if o.Atomics {
 					a.A = int32(t.Choose(NumTrapsAtomics))
@@ -349,6 +350,7 @@ func (p *Plan) Encode() []byte {
 		m.ImportFunc("env", "h2", i32, []wasmb.ValType{w32, w32})
 	}
 	tGuest := m.AddType(i32, i32)
+	tHost := m.AddType([]wasmb.ValType{wasmb.I32, wasmb.I32}, i32)
 	n := len(p.Funcs)
 	for i, f := range p.Funcs {
 		c := &wasmb.Code{}
@@ -375,7 +377,11 @@ func (p *Plan) Encode() []byte {
 			case ACallI:
 				c.LocalGet(1).I32Const(a.A).CallIndirect(tGuest, 0).LocalSet(1)
 			case AHost:
-				c.I32Const(a.A).LocalGet(1).Call(l.Host).LocalSet(1)
+				if a.B == 1 {
+					c.I32Const(a.A).LocalGet(1).I32Const(0).CallIndirect(tHost, 1).LocalSet(1)
+				} else {
+					c.I32Const(a.A).LocalGet(1).Call(l.Host).LocalSet(1)
+				}
 			case ATrap:
 				switch a.A {
 				case TrapUnreachable:
@@ -526,7 +532,8 @@ func (p *Plan) Encode() []byte {
 	// gleaf(x): bumps global 3 of ITS OWN instance and returns x+1; reachable only through the
 	// immutable funcref global (index NGlobals)
 	m.AddFunc(i32, i32, nil, (&wasmb.Code{}).GlobalGet(3).I32Const(1).I32Add().GlobalSet(3).LocalGet(0).I32Const(1).I32Add().B, "gleaf")
-	m.Tables = []wasmb.Table{{Elem: wasmb.FuncRef, Lim: wasmb.Limits{Min: TableSize, Max: TableSize, HasMax: true}}}
+	// table 1 holds the imported host function: host atoms may reach it with call_indirect
+	m.Tables = []wasmb.Table{{Elem: wasmb.FuncRef, Lim: wasmb.Limits{Min: TableSize, Max: TableSize, HasMax: true}}, {Elem: wasmb.FuncRef, Lim: wasmb.Limits{Min: 1, Max: 1, HasMax: true}}}
 	m.Mem = &wasmb.Limits{Min: 1, Max: MaxPages, HasMax: true}
 	for g := 0; g < NGlobals; g++ {
 		m.Globals = append(m.Globals, wasmb.Global{Type: wasmb.I32, Mut: true, Init: wasmb.ConstI32(int32(1000 * (g + 1)))})
@@ -569,6 +576,8 @@ func (p *Plan) Encode() []byte {
 	}
 	all = append(all, l.Gleaf)
 	m.Elems = append(m.Elems, wasmb.Elem{Mode: 2, Funcs: all})
+	// (last, so that the indexes of the segments above stay what the atoms use)
+	m.Elems = append(m.Elems, wasmb.Elem{Mode: 0, TableIdx: 1, Offset: wasmb.ConstI32(0), Funcs: []uint32{l.Host}})
 	m.Datas = []wasmb.Data{{Passive: true, Bytes: []byte{0x0D, 0xF0, 0xED, 0x5E}}, {Offset: wasmb.ConstI32(0x120), Bytes: []byte("f")},
 		// an active segment that initialises the LAST cell: instances start from the segment's bytes, never
 		// from what another instance made of them
